@@ -53,6 +53,9 @@ type Scenario struct {
 	// one every GrowEveryMs, each announced with an inv.
 	GrowEveryMs int `json:"grow_every_ms,omitempty"`
 	GrowCount   int `json:"grow_count,omitempty"`
+	// BanStoreFault makes every write of a ban record fail (the ban cannot
+	// be recorded); a misbehaving peer must still be disconnected.
+	BanStoreFault bool `json:"ban_store_fault,omitempty"`
 }
 
 // ValidRow is one (height, block hash token, filter header token) of a valid
@@ -158,7 +161,7 @@ func RunScenario(s *Scenario, work string) *Result {
 			mainNodes = append(mainNodes, n)
 		}
 	}
-	cl, err := NewClient(dir, nt, nt.Addrs(), time.Duration(s.RetryMs)*time.Millisecond, false)
+	cl, err := NewClient(dir, nt, nt.Addrs(), time.Duration(s.RetryMs)*time.Millisecond, false, ClientOpts{BanFault: s.BanStoreFault})
 	if err != nil {
 		res.SetupErr = err.Error()
 		return res
